@@ -116,9 +116,15 @@ def rule_state(ctx):
           want_len = sym.mk("len", as_poly(comb[0].data["args"][0]))
           if not (a1 is not None and a1.kind == "listrep" and a1.args[0] == P("seq", sym.mk("attr", SELF, "p_value_repeat")) and a1.args[1] == want_len):
             probs_rep.append("repeat level is not CombinedPValue([p_value_repeat] * len(pvals)) for the same pvals")
-    inc = [e for e in evs if e.kind == "augassign" and e.data["name"] == "undecided"]
-    if (name[0] == "UNDECIDED") != (len(inc) == 1) or (inc and not (as_poly(inc[0].data["rhs"]).as_int() == 1 and isinstance(inc[0].node.op, ast.Add))):
-      probs_cnt.append("`undecided` is not incremented exactly on the UNDECIDED paths")
+    # the counter: a loop-carried integer that starts at 0; it grows by one exactly on the UNDECIDED paths (any spelling: +=, x = x + 1, x = 1 + x)
+    ctr = [nm for nm in info["modified"] if isinstance(vis["head"].env.get(nm), Poly) and vis["head"].env[nm].as_atom() is not None and vis["head"].env[nm].as_atom().kind == "sym"
+           and isinstance(vis["pre_env"].get(nm), (Poly, Const)) and as_poly(vis["pre_env"][nm]).is_zero()]
+    if len(ctr) != 1:
+      probs_cnt.append("no single counter of undecided names (loop-carried integers starting at 0: %s)" % ctr)
+    else:
+      d = as_poly(s.env.get(ctr[0])) - vis["head"].env[ctr[0]] if s.env.get(ctr[0]) is not None and not isinstance(s.env.get(ctr[0]), (Seq, tuple)) else None
+      if d is None or d.as_int() != (1 if name[0] == "UNDECIDED" else 0):
+        probs_cnt.append("`%s` is not incremented exactly on the UNDECIDED paths" % ctr[0])
   # ---- decision table on the 13 weak orderings (per visit of the loop: the symbolic p-values differ per pre-state)
   ok_tab = True
   why_tab = ""
@@ -185,9 +191,6 @@ def rule_state(ctx):
   ctx.record(R, f.where, "state stored once per named p-value", not probs_store, "; ".join(sorted(set(probs_store))) or "self.state[name] assigned exactly once per pair")
   ctx.record(R, f.where, "append before combine, same list", not probs_app, "; ".join(sorted(set(probs_app))) or "pvals = self.p_values[name]; append; CombinedPValue(pvals)")
   ctx.record(R, f.where, "repeat level combined over the same count", not probs_rep, "; ".join(sorted(set(probs_rep))) or "CombinedPValue([p_value_repeat] * len(pvals))")
-  init0 = [e for e in w.events if e.kind == "assign" and e.data["name"] == "undecided" and not e.state.tags]
-  if not (init0 and all(as_poly(e.data["value"]).as_int() == 0 for e in init0)):
-    probs_cnt.append("`undecided` does not start at 0")
   ctx.record(R, f.where, "undecided counts exactly the UNDECIDED names", not probs_cnt, "; ".join(sorted(set(probs_cnt))) or "initialised 0, +1 on UNDECIDED paths only")
   # ---- finished flag
   fin = [e for e in w.events if e.kind == "setattr" and e.data["attr"] == "finished" and not any(c[0] == "opaque" for c, pol, node in e.state.pc)]
